@@ -904,10 +904,202 @@ def gen_ipv6_values(rng, count):
     return out
 
 
+def _eth_canon_from_case(a):
+    dst, src, et = a[:3]
+    if len(_unhex(dst)) != 6 or len(_unhex(src)) != 6 or not _num(et, 65535):
+        return None
+    return "%s,%s,%s" % (dst, src, et)
+
+
+def _vlan_canon_from_case(a):
+    pcp, dei, vid, et = a[:4]
+    if not (_num(pcp, 7) and dei in ("0", "1") and _num(vid, 4095) and _num(et, 65535)):
+        return None
+    return ",".join(a[:4])
+
+
+NONSTD = set(list(range(1, 10)) + [12, 13, 14, 16, 17] + list(range(0x15, 0x1D)) + list(range(0xF5, 0xFB)))
+SLL_HRD = {824: ("nl",), 778: ("gre",), 803: ("ign",), 770: ("ign",), 1: ("et", "ns")}
+
+
+def _sll_canon_from_case(a):
+    pt, hrd, savl, addr, kind, v = a[:6]
+    if not (_num(pt, 7) and _num(hrd, 65535) and _num(savl, 65535) and _num(v, 65535)) or len(_unhex(addr)) != 8:
+        return None
+    if kind not in ("ign", "nl", "gre", "et", "ns") or (kind == "ns" and int(v) not in NONSTD):
+        return None
+    return ",".join(a[:6])
+
+
+def _sll_inconsistent(a):
+    hrd, kind, v = int(a[1]), a[4], int(a[5])
+    if hrd not in SLL_HRD or kind not in SLL_HRD[hrd]:
+        return True
+    return kind == "et" and v in NONSTD
+
+
+def _arp_canon_from_case(a):
+    hat, pat, op, sh, sp, th, tp, pre = a[:8]
+    if not (_num(hat, 65535) and _num(pat, 65535) and _num(op, 65535)):
+        return None
+    l = [len(_unhex(x)) for x in (sh, sp, th, tp)]
+    if l[0] != l[2] or l[1] != l[3] or l[0] > 255 or l[1] > 255:
+        return None
+    if pre != "-" and any(int(x) > 255 for x in pre.split(",")):
+        return None
+    return "%s,%s,%d,%d,%s,%s,%s,%s,%s" % (hat, pat, l[0], l[1], op, sh, sp, th, tp)
+
+
+def _arpeth_canon_from_case(a):
+    op, sm, si, tm, ti = a[:5]
+    if not _num(op, 65535) or [len(_unhex(x)) for x in (sm, si, tm, ti)] != [6, 4, 6, 4]:
+        return None
+    return ",".join(a[:5])
+
+
+CANON_FROM_CASE["eth"] = _eth_canon_from_case
+CANON_FROM_CASE["vlan"] = _vlan_canon_from_case
+CANON_FROM_CASE["sll"] = _sll_canon_from_case
+CANON_FROM_CASE["arp"] = _arp_canon_from_case
+CANON_FROM_CASE["arpeth"] = _arpeth_canon_from_case
+# constructible LinuxSllHeader values whose protocol type variant does not belong to the ARP
+# hardware id: must NOT come back equal (C08_Sll_inconsistent_not_roundtrip)
+EXPECT_NOT_ROUNDTRIP = {"sll": _sll_inconsistent}
+PROVED += ["eth", "vlan", "sll", "arp", "arpeth"]
+
+
+def gen_eth_values(rng, count):
+    out = []
+    for _ in range(count):
+        out.append("v eth %s %s %d %s" % (hx(_blob(rng, 6)), hx(_blob(rng, 6)), _edge(rng, 16), hx(rng.bytes(rng.below(5)))))
+    out += ["v eth 0102030405 010203040506 1 -", "v eth 010203040506 01020304050607 1 -", "v eth 010203040506 010203040506 65536 -"]
+    return out
+
+
+def gen_vlan_values(rng, count):
+    out = []
+    for pcp in range(8):                      # every pcp, dei and high nibble of the id (one byte)
+        for dei in (0, 1):
+            for hi in range(16):
+                vid = (hi << 8) | rng.below(256)
+                out.append("v vlan %d %d %d %d %s" % (pcp, dei, vid, _edge(rng, 16), hx(rng.bytes(rng.below(4)))))
+    for _ in range(count):
+        out.append("v vlan %d %d %d %d %s" % (rng.below(8), rng.below(2), _edge(rng, 12), _edge(rng, 16),
+                                              hx(rng.bytes(rng.below(4)))))
+    out += ["v vlan 8 0 0 0 -", "v vlan 0 0 4096 0 -", "v vlan 0 0 0 65536 -"]
+    return out
+
+
+def gen_sll_values(rng, count, big):
+    out = []
+    hrds = [824, 778, 803, 770, 1]
+    kinds = ["ign", "nl", "gre", "et", "ns"]
+    # every packet type incl. the first invalid ones, every hardware id x kind (consistent and not)
+    for pt in range(0, 10):
+        for hrd in hrds + [0, 2, 6, 769, 771, 777, 779, 802, 804, 823, 825, 65535]:
+            for kind in kinds:
+                v = rng.choice(sorted(NONSTD)) if kind == "ns" or rng.chance(1, 4) else _edge(rng, 16)
+                out.append("v sll %d %d %d %s %s %d %s" % (pt, hrd, _edge(rng, 16), hx(_blob(rng, 8)), kind, v,
+                                                           hx(rng.bytes(rng.below(3)))))
+    # ethernet: every protocol value in the LinuxNonstandardEtherType range and around it (all u16 in thorough)
+    top = 65536 if big else 0x120
+    for v in range(top):
+        for kind in ("et", "ns"):
+            out.append("v sll %d 1 %d %s %s %d -" % (rng.below(8), _edge(rng, 16), hx(_blob(rng, 8)), kind, v))
+    for _ in range(count):
+        hrd = rng.choice(hrds)
+        kind = rng.choice(SLL_HRD[hrd]) if rng.chance(7, 8) else rng.choice(kinds)
+        v = rng.choice(sorted(NONSTD)) if kind == "ns" else _edge(rng, 16)
+        out.append("v sll %d %d %d %s %s %d %s" % (rng.below(8), hrd, _edge(rng, 16), hx(_blob(rng, 8)), kind, v,
+                                                   hx(rng.bytes(rng.below(5)))))
+    return out
+
+
+def gen_sll_bytes(rng, big):
+    out = []
+    top = 65536 if big else 0x120
+    for v in range(top):                      # protocol field values for ARPHRD_ETHER
+        d = bytearray(rng.bytes(16 + rng.below(3)))
+        d[0:4] = bytes([0, rng.below(8), 0, 1])
+        d[14] = v >> 8
+        d[15] = v & 255
+        out.append("b sll " + hx(bytes(d)))
+    for hrd in range(1024 if not big else 65536):   # hardware ids
+        d = bytearray(rng.bytes(16))
+        d[0:4] = bytes([0, rng.below(8), hrd >> 8, hrd & 255])
+        out.append("b sll " + hx(bytes(d)))
+    return out
+
+
+def gen_arp_values(rng, count):
+    out = []
+    for hs in list(range(0, 9)) + [20, 127, 128, 254, 255]:
+        for ps in list(range(0, 6)) + [16, 128, 255]:
+            pre = "-" if rng.chance(1, 2) else "%d,%d" % (rng.below(256), rng.below(256))
+            out.append("v arp %d %d %d %s %s %s %s %s %s" % (
+                _edge(rng, 16), _edge(rng, 16), _edge(rng, 16), hx(_blob(rng, hs)), hx(_blob(rng, ps)),
+                hx(_blob(rng, hs)), hx(_blob(rng, ps)), pre, hx(rng.bytes(rng.below(4)))))
+    out += ["v arp 1 2048 1 010203 01 0102 01 - -", "v arp 1 2048 1 01 0102 01 01 - -",
+            "v arp 1 2048 1 %s 01 %s 01 - -" % ("00" * 256, "00" * 256), "v arp 65536 0 0 - - - - - -",
+            "v arp 1 2048 1 01 02 03 04 256,1 -"]
+    for _ in range(count):
+        hs = rng.choice([6, 6, 0, 1, 8, rng.below(256)])
+        ps = rng.choice([4, 4, 0, 16, rng.below(256)])
+        pre = "-" if rng.chance(2, 3) else "%d,%d" % (rng.below(256), rng.below(256))
+        out.append("v arp %d %d %d %s %s %s %s %s %s" % (
+            _edge(rng, 16), _edge(rng, 16), _edge(rng, 16), hx(_blob(rng, hs)), hx(_blob(rng, ps)),
+            hx(_blob(rng, hs)), hx(_blob(rng, ps)), pre, hx(rng.bytes(rng.below(6)))))
+        out.append("v arpeth %d %s %s %s %s %s" % (_edge(rng, 16), hx(_blob(rng, 6)), hx(_blob(rng, 4)),
+                                                   hx(_blob(rng, 6)), hx(_blob(rng, 4)), hx(rng.bytes(rng.below(4)))))
+    out += ["v arpeth 1 0102030405 01020304 010203040506 01020304 -", "v arpeth 65536 010203040506 01020304 010203040506 01020304 -"]
+    return out
+
+
+def _ext4_canon_from_case(a):
+    start, auth = a[:2]
+    if not _num(start, 255):
+        return None
+    if auth == "-":
+        return "%s,%s,-" % (start, start)
+    f = auth.split(":")
+    n = len(_unhex(f[3]))
+    if len(f) != 4 or not (_num(f[0], 255) and _num(f[1], 0xFFFFFFFF) and _num(f[2], 0xFFFFFFFF)) or n > 1016 or n % 4:
+        return None
+    return "%s,%s,%s" % (start, f[0], auth)
+
+
+CANON_FROM_CASE["ext4"] = _ext4_canon_from_case
+# authentication header present but not announced by the start number (write refuses), or announced but absent
+EXPECT_NOT_ROUNDTRIP["ext4"] = lambda a: (a[1] != "-") != (a[0] == "51")
+PROVED += ["ext4"]
+
+
+def gen_ext4_values(rng, count):
+    out = []
+    for k in list(range(0, 12)) + [127, 253, 254]:
+        out.append("v ext4 51 %d:%d:%d:%s %s" % (_edge(rng, 8), _edge(rng, 32), _edge(rng, 32), hx(_blob(rng, 4 * k)),
+                                                 hx(rng.bytes(rng.below(5)))))
+    for start in list(range(0, 256)):
+        out.append("v ext4 %d - %s" % (start, hx(rng.bytes(rng.below(20)))))      # 51 without a header: not a round trip
+    for _ in range(count):
+        start = 51 if rng.chance(7, 8) else rng.below(256)
+        nh = rng.choice(FINALS + [51, _edge(rng, 8)])
+        out.append("v ext4 %d %d:%d:%d:%s %s" % (start, nh, _edge(rng, 32), _edge(rng, 32), hx(_blob(rng, 4 * rng.below(8))),
+                                                 hx(rng.bytes(rng.below(5)))))
+    out += ["v ext4 256 - -", "v ext4 51 6:1:2:010203 -", "v ext4 51 256:1:2:01020304 -"]
+    return out
+
+
 def gen_linknet(rng, tier):
     k = 8 if tier == "thorough" else 1
     cases = []
+    cases += gen_ext4_values(rng, 300 * k)
     cases += gen_macsec_values(rng, 500 * k)
+    cases += gen_eth_values(rng, 300 * k)
+    cases += gen_vlan_values(rng, 300 * k)
+    cases += gen_sll_values(rng, 500 * k, tier == "thorough")
+    cases += gen_sll_bytes(rng, tier == "thorough")
+    cases += gen_arp_values(rng, 400 * k)
     cases += gen_auth_values(rng, 300 * k)
     cases += gen_rawext_values(rng, 300 * k)
     cases += gen_ipv6_values(rng, 500 * k)
@@ -931,6 +1123,15 @@ def corpus():
         "v rawext 43 010203040506 " + "aa" * 14 + " 09",
         "v ipv6 255 1048575 65535 255 255 " + "ff" * 16 + " " + "ff" * 16 + " -",
         "v ipv6 165 74565 8 17 64 " + "01" * 16 + " " + "02" * 16 + " 09",
+        "v eth ffffffffffff 010203040506 2048 09",
+        "v vlan 7 1 4095 65535 -",
+        "v sll 4 1 6 0102030405060000 et 2048 09",
+        "v sll 7 1 65535 ffffffffffffffff ns 250 -",
+        "v sll 0 1 0 0000000000000000 ign 5 -",          # inconsistent: decodes to LinuxNonstandardEtherType(5)
+        "v sll 0 6 0 0000000000000000 et 2048 -",        # unsupported hardware id: rejected
+        "v arp 65535 65535 65535 07 - 08 - 3,1 0909",    # stale initialised bytes behind the addresses
+        "v arp 1 2048 1 " + "11" * 255 + " " + "22" * 255 + " " + "33" * 255 + " " + "44" * 255 + " - -",
+        "v arpeth 1 010203040506 0a000001 000000000000 0a000002 09",
     ]
 
 
@@ -958,7 +1159,27 @@ def _oracle(parts, il):
         if f["d"] != "err" or f["rd"] not in ("err", "-"):
             return "excluded value (wf predicate false) was accepted by a decoder: d=%s rd=%s" % (f["d"], f["rd"])
         return None
-    return _oracle_base_c08a(parts, il)
+    if kind == "v" and t in EXPECT_NOT_ROUNDTRIP and CANON_FROM_CASE[t](parts[2:]) is not None \
+            and EXPECT_NOT_ROUNDTRIP[t](parts[2:]):
+        if il.startswith("PANIC") or il.startswith("CRASH") or il.startswith("NOT-RUN"):
+            return il[:200]
+        f = _kv(il)
+        want = CANON_FROM_CASE[t](parts[2:])
+        if f.get("v") != want:
+            return "constructed value %s is not the requested %s" % (f.get("v"), want)
+        refused = f["tb"].endswith("dead")       # the serialiser itself refuses the value (write -> Err)
+        if f["w"] != f["tb"] or (f["ws"] != "-" and f["ws"] != f["tb"]) or \
+                (len(_unhex(f["tb"])) != int(f["hl"]) and not refused):
+            return "serialisers disagree on an inconsistent value"
+        if f["eq"] == "1" or f["d"].split("/")[0] == want or f.get("fb") == want:
+            return "inconsistent value (wf predicate false) came back unchanged: d=%s" % f["d"]
+        return None
+    why = _oracle_base_c08a(parts, il)
+    if why is None and kind == "v" and not il.startswith("noval"):
+        f = _kv(il)
+        if "fb" in f and f["fb"] != f.get("v"):
+            return "from_bytes(to_bytes v) = %s, not v" % f["fb"]
+    return why
 # ---- end extend-c08a ----
 
 
@@ -967,9 +1188,10 @@ def _oracle(parts, il):
 # (Roundtrip/PropsTransport.v).  Their byte-string cases are compared byte-exactly with
 # the model (re-encoded bytes, verdicts of from_slice/read, consumed length); the Rust
 # harness prints `=` for an equal value (crate PartialEq), the model runner likewise.
-PROVED_C08B = ["udp", "icmp4"]
+PROVED_C08B = ["udp", "icmp4", "icmp6", "igmp", "grec", "prefix"]
 PROVED += PROVED_C08B
 MASKS["udp"] = lambda c: _ones(len(c))            # no reserved bits in a UDP header
+MASKS["grec"] = lambda c: _ones(len(c))           # no reserved bits in a group record header
 
 
 def gen_transport(rng, tier):
@@ -1001,6 +1223,44 @@ def gen_transport(rng, tier):
                 d[0] = ty
                 d[1] = code
                 out.append("b icmp4 " + hx(bytes(d)))
+    # every typed (type, code) pair of ICMPv4 / ICMPv6 with several rest-of-header words (first
+    # mutant round: a wrong variant for (11, 1) / a byte-swapped MTU for (2, 0) were hit by < 20 cases)
+    typed4 = [(0, 0), (8, 0)] + [(3, c) for c in range(16)] + [(5, c) for c in range(4)] + [(11, 0), (11, 1),
+             (12, 0), (12, 1), (12, 2)]
+    typed6 = [(1, c) for c in range(7)] + [(2, 0), (3, 0), (3, 1)] + [(4, c) for c in range(11)] + \
+             [(128, 0), (129, 0), (133, 0), (134, 0), (135, 0), (136, 0), (137, 0)]
+    for tag, typed in (("icmp4", typed4), ("icmp6", typed6)):
+        for (ty, code) in typed:
+            for j in range(12 * k):
+                d = bytearray(_blob(rng, 8 + rng.choice([0, 0, 1, 4, 16])))
+                d[0] = ty
+                d[1] = code
+                if j == 0:
+                    d[4:8] = b"\x01\x02\x03\x04"
+                out.append("b %s %s" % (tag, hx(bytes(d))))
+    # ndp prefix information: every value of the flag byte 3 and of the reserved2 bytes
+    for b in range(256):
+        d = bytearray(rng.bytes(32))
+        d[0], d[1] = 3, 4
+        d[3] = b
+        out.append("b prefix " + hx(bytes(d)))
+        d = bytearray(rng.bytes(32))
+        d[0], d[1] = 3, 4
+        d[12 + (b & 3)] = b
+        out.append("b prefix " + hx(bytes(d) + rng.bytes(b & 1)))
+    for t0 in (2, 3, 4):
+        for l0 in (3, 4, 5):
+            out.append("b prefix " + hx(bytes([t0, l0]) + rng.bytes(30)))
+    # igmp: every kind at the lengths that decide the query version; group records
+    for ty in (0x11, 0x12, 0x16, 0x17, 0x22, 0x10, 0x23, 0x00, 0xff):
+        for n in range(7, 18):
+            for fill in (None, b"\x00", b"\xff"):
+                d = bytearray(rng.bytes(n) if fill is None else fill * n)
+                d[0] = ty
+                out.append("b igmp " + hx(bytes(d)))
+    for n in range(6, 12):
+        for fill in (b"\x00", b"\xff", b"\x80", b"\x01"):
+            out.append("b grec " + hx(fill * n))
     return out
 
 
